@@ -507,7 +507,7 @@ pub fn supervise(prop: &PropDef, tier: Tier) -> i32 {
         .ok()
         .and_then(|s| s.parse().ok())
         .unwrap_or(match tier {
-            Tier::Quick => 40,
+            Tier::Quick => 55,
             Tier::Thorough => 1200,
         });
     let deadline_ms = std::time::SystemTime::now()
